@@ -23,6 +23,7 @@
 #include "parse_expression.h"
 #include "plugin_manager.h"
 #include "expression_builtin.h"
+#include "functor_manager.h"
 
 #include <cstring>
 
@@ -205,6 +206,9 @@ Executable * Parser::parse(Context& ctx, StreamReader& reader, bool trace /*= fa
 
   p.trace(trace);
   std::list<const Statement*> statements;
+  /* definitions of function are registered while parsing: keep the current
+   * ones to restore them if the text is rejected */
+  std::vector<FunctorPtr> functors = ctx.functorManager().snapshot();
 
   p.state(Parsing);
   try
@@ -236,6 +240,7 @@ Executable * Parser::parse(Context& ctx, StreamReader& reader, bool trace /*= fa
     ctx.parsingEnd();
     for (auto s : statements)
       delete s;
+    ctx.functorManager().restore(functors);
     /* break current trace line */
     if (trace && ctx.ctxerr())
     {
